@@ -6,7 +6,7 @@ Oracle: the reference interpreter raises the same faults from the source semanti
 committed traces must be equal (fault flag then error, nothing after, earlier output
 intact, no effect of the faulting store, and no fault flag when the condition is absent)."""
 from ..cases import Stats, run_program, replay_conformance, std_coverage, check_conformance, compile_case, ref_trace
-from ..gen import tt
+from ..gen import tt, chain
 from ..ref.parser import parse_program
 from .. import hid
 
@@ -201,6 +201,18 @@ def items(tier):
     for el in EL:
         out.append((i, 'LEN', el))
         i += 1
+    for k in range(len(chain.GIDX_PROGS)):
+        out.append((i, 'GIDX', k))
+        i += 1
+    for W in (2, 3):
+        out.append((i, 'LENL', W))
+        i += 1
+    # chained divisions by constants: the divisors may not be merged when their product wraps (to zero, or at all)
+    for W in ((2, 3, 4) if tier == 'thorough' else (2, 3)):
+        for form, o1, k1 in chain.chain_items(W, tier):
+            if o1 in '/%' and form in (0, 2, 4):
+                out.append((i, 'DIVCH', W, form, o1, k1))
+                i += 1
     for it in tt.family_P(tier):
         out.append((i, 'NLP', it[1]))
         i += 1
@@ -351,23 +363,43 @@ def run_item(item, tier):
                         continue
                     _must_overflow(st, src, prog, n, W, 64, f'LEN[{el}] n={n}')
         st.sample({'family': 'LEN', 'element': el})
+    elif fam == 'GIDX':
+        run_program(st, chain.GIDX_PROGS[item[2]], [[str(n)] for n in chain.GIDX_INPUTS], Ws, f'GIDX[{item[2]}]')
+        st.add('cases', len(chain.GIDX_INPUTS))
+        st.sample({'family': 'GIDX', 'program': chain.GIDX_PROGS[item[2]], 'inputs': chain.GIDX_INPUTS})
+    elif fam == 'LENL':
+        for tag, src in chain.lenl_programs(item[2]):
+            prog = parse_program(src)
+            for i_ in (0, 3, 60):
+                _must_overflow(st, src, prog, i_, item[2], 64, f'LENL[{tag}] i={i_}')
+                st.add('cases')
+        st.sample({'family': 'LENL', 'W': item[2], 'programs': [t for t, _ in chain.lenl_programs(item[2])]})
+    elif fam == 'DIVCH':
+        _, _, W, form, o1, k1 = item
+        src = chain.chain_program(form, o1, k1, W, ops2=['/', '%'])
+        vals = chain.xs(W)
+        if tier == 'quick':
+            vals = vals[::3] + vals[-2:]
+        run_program(st, src, [[str(v)] for v in vals], [W], f'DIVCH[{chain.FORMS[form]}; op1 {o1}; K1 {k1}; op2 / %; every K2]')
+        st.add('cases', len(vals))
     elif fam == 'NLP':
         src = tt.build_P(item[2])
         run_program(st, src, tt.P_ARGVS, [2, 4] if tier == 'thorough' else [2], f'NLP{item[2]}')
     return st
 
 
-def _must_overflow(st, src, prog, n, W, S, tag):
+def _must_overflow(st, src, prog, n, W, S, tag, early_ok=False):
     from ..cases import run_impl, describe
     from .. import svm
-    case = {'kind': 'overflow', 'src': src, 'prog': repr(prog), 'argv': [str(n)], 'W': W, 'S': S, 'tag': tag}
+    case = {'kind': 'overflow', 'src': src, 'prog': repr(prog), 'argv': [str(n)], 'W': W, 'S': S, 'tag': tag, 'early_ok': early_ok}
     r, err = run_impl(src, [str(n)], W, S, mon=svm.Monitor())
     st.add('evaluations')
     if err:
         st.viol(f'{tag}: {err}', case)
         return
     st.vm(r)
-    ok = r.outcome == 'loop' and list(r.pre) == [('y', ord('<')), ('f', 'stack_overflow'), ('f', 'error')]
+    ok = r.outcome == 'loop' and (list(r.pre) == [('y', ord('<')), ('f', 'stack_overflow'), ('f', 'error')]
+                                  or early_ok and list(r.pre) == [('f', 'stack_overflow'), ('f', 'error')])      # a stack too small even for the frame
     if not ok:
         st.viol(f'{tag}: an array that cannot fit must raise stack_overflow before anything else happens; observed {describe(r)[:300]}', case)
     elif r.violations:
@@ -393,6 +425,11 @@ def coverage(total, tier):
                 '2^n - 1, 256): compile-time rejection allowed iff the run-time would fault',
         'LEN': 'array length (run-time value; computed + narrowed with `is byte`; literal; const-variable expression) in {min,-9,-8,-7,-2,-1,0,1,2,5,maxlen+1,max} (exact reference match at stack 8 and 64) and '
                '{maxlen, maxlen-1, just above the stack size, 4000 elements} (must be a clean stack_overflow) for int/byte/bool/string elements',
+        'GIDX': f'{len(chain.GIDX_PROGS)} statements whose element index lives in a place the statement itself changes (a mutable global moved by a call on the right-hand side, a cell of another array written '
+                f'through a reference, the loop counter) for int/byte/string/bool elements, locals and globals x {len(chain.GIDX_INPUTS)} displacements: the access after the move must be checked again',
+        'LENL': 'dynamic int/string arrays whose length is the .length of a bool/byte global just long enough for length x element size to wrap the word (W=3: 2^24/size + {1,2,40}; directly, through a '
+                'parameter, plus a zero global, through a local): must be a clean stack_overflow; W=2 controls',
+        'DIVCH': 'x / K1 / K2, x % K1 % K2 and mixed, also as K2 / (x / K1) and through const variables, K1 (quick: 8 of them) and K2 over 19 constants whose products wrap (to zero: 2^(n/2) x 2^(n/2)) or do not: no spurious division_by_zero, exact quotients',
         'NLP': 'family P of C02 (preemptive defeat functions x continuations x undo/stop)',
         'word_sizes': '2,3,4,8' if tier == 'thorough' else '2 plus one of 3,4 per program',
     })
@@ -409,6 +446,6 @@ def replay(case):
     if case.get('kind') == 'overflow':
         import ast
         st = Stats()
-        _must_overflow(st, case['src'], ast.literal_eval(case['prog']), int(case['argv'][0]), case['W'], case['S'], case['tag'])
+        _must_overflow(st, case['src'], ast.literal_eval(case['prog']), int(case['argv'][0]), case['W'], case['S'], case['tag'], early_ok=case.get('early_ok', False))
         return [v['msg'] for v in st.get('viol', [])]
     return replay_conformance(case)
